@@ -1232,6 +1232,13 @@ def lset_shape(case, out):
     return (len(case.split(" ")[1]), tuple(sorted(set((len(t.split("/")[0]) - 1, len(t.split("/")[-1]) - 1) for t in toks if "/" in t))))
 
 
+PROPS["C13"]["rule"] += (" DROP GUARDS (rt stream, direct host, `(task I*)` commands): every task future the DSL interpreter creates - the "
+                         "command's first task and every spawn / handoff child - captures a drop guard; after EVERY step the harness prints the "
+                         "number of guards alive (`g<N>`) and the model the number of task futures it has not dropped (M.Hosts.liveFutures: "
+                         "metas with taskAlive, cleared only by dropTask); compared step by step, oracle key task-future-not-dropped.")
+PROPS["C13"]["level_text"] += (" TASK FUTURES ARE DROPPED (first clause): observed on the real code with drop guards and compared with the model's "
+                               "dropTask accounting on every direct `(task ...)` case (a test, labelled as such; the accounting invariant "
+                               "'every live future is stored or queued' is not yet a theorem).")
 PROPS["C13"]["streams"].append(Stream("lset", "timer", "timer", lset_gen, nontrivial=lset_nontrivial, shape=lset_shape,
                                       shrink=lambda c: timer_shrinks(c)))
 PROPS["C13"]["rule"] += (" lset stream (engine timer): 1..9 legacy capability timers (caps.time.notify_after / notify_at / clear) in one real "
